@@ -124,7 +124,13 @@ pub fn run_case(case: &Case) -> Result<(bool, Vec<&'static str>), Failure> {
     let mut model: Vec<E> = Vec::new();
     let mut max_hops = 0;
     let mut multi = BTreeMap::<(usize, usize), usize>::new();
-    for ch in &case.chains {
+    for (ci, ch) in case.chains.iter().enumerate() {
+        if ci == case.chains.len() / 2 {
+            // an extraction in the middle of the wiring must not influence later extractions
+            let early = sim.topology();
+            let _ = early.connected();
+            let _ = Topology::spanned(sim.get(&ObjectPath::from(paths[idx(case.root, n)].as_str())).unwrap());
+        }
         let a = idx(ch.a, n);
         let b = idx(ch.b, n);
         let mut owners = vec![a];
